@@ -2,10 +2,10 @@
 import os
 from vlib import common as C, coapgen as G
 
-# clean (exit 0 + KNOWN-FINDING) at seeds 1..5 on 2026-09-26; the text leads with what is NOT proved.
+# clean (exit 0 + KNOWN-FINDING) at seeds 1..5 on 2026-09-26; build_view proved since (branch ws-P04).
 MANIFEST = {
-    "text": "PARTIAL. Proved in Lean for all messages and all three framings: decode(encode m) = m for every well-formed message (udp, tcp with four length forms, ws), the 13/14 header scheme is a bijection, any insertion order yields ascending options with insertion order kept among equals (about the specification S); M's serialised bytes = Spec.encode and the decoder's view of a built PDU is the abstract message (about the transcription M of libcoap's builders). NOT proved: that M's out-of-order path (coap_insert_option) refines S, and that every refused call is a no-op — the latter is false on the current tree (open finding: a refused Proxy-Uri/Proxy-Scheme on a request leaves Hop-Limit behind; kernel-checked witness). Those parts rest on differential runs only: I vs M vs S on generated API call scripts, per-call buffer digests, bytes compared with Spec.encode.",
-    "note": 'Trusted: Lean kernel (+ propext, Classical.choice, Quot.sound), T1 extractor, harness/generators, the hand transcription M (checked against the compiled code on the cases run only; no model-branch coverage is reported). Three libcoap defects fixed on the way (f8194f9, 6eac10e, 0dbb6d3), one open. Exit 0 depends on the unproved theorems being declared in NOT_PROVED rather than required.',
+    "text": "Proved in Lean for all messages and all three framings: decode(encode m) = m for every well-formed message (udp, tcp with four length forms, ws), the 13/14 header scheme is a bijection, any insertion order yields ascending options with insertion order kept among equals (about the specification S); M's serialised bytes = Spec.encode and the decoder's view of a built PDU is the abstract message; and build_view: every script of API calls (add_token / add_option in ANY order, i.e. including the coap_insert_option path with its six next-option header rewrite cases / insert / update / remove / update_token / add_data, any capacity, refusals at any step) run by the transcription M of libcoap's builders never leaves the buffer and ends on the PDU representing the abstract message reached by the specification's steps with M's return codes. PARTIAL: 'every refused call is a no-op' is false on the current tree (open finding: a refused Proxy-Uri/Proxy-Scheme on a request leaves Hop-Limit behind; kernel-checked witness); proved instead: every refused call of every kind is a no-op outside that domain (refused_is_noop_partial), and inside it a refused call leaves nothing but Hop-Limit=16 (refused_changes_only_hop_limit). M is tied to the C code by differential runs: I vs M vs S on generated API call scripts, per-call buffer digests, bytes compared with Spec.encode.",
+    "note": 'Trusted: Lean kernel (+ propext, Classical.choice, Quot.sound), T1 extractor, harness/generators, the hand transcription M (checked against the compiled code on the cases run only; no model-branch coverage is reported). Three libcoap defects fixed on the way (f8194f9, 6eac10e, 0dbb6d3), one open. refused_is_noop remains in NOT_PROVED because it is false (open finding), not because a proof is missing.',
     "design_ref": "design/C01.md, DESIGN.md §4 C01",
 }
 
@@ -15,11 +15,13 @@ REQUIRED_THEOREMS = ["ext_roundtrip", "opt_header_unique", "decode_encode", "enc
                      "opts_canonical", "build_sorted", "build_stable", "constants_match",
                      "refused_repetitions_are_illegal",
                      # M side
-                     "M_encode_eq_S", "view_of_built", "build_view_partial", "refused_is_noop_partial",
+                     "M_encode_eq_S", "view_of_built", "build_view", "build_view_fresh", "build_view_partial",
+                     "accepted_step_is_spec", "refused_is_noop_partial", "refused_changes_only_hop_limit",
                      "refused_proxy_leaves_hop_limit"]
-# NOT PROVED at full strength (see Props/C01.lean, design/C01.md): build_view for out-of-order insertion
-# (coap_insert_option path) — T2 only; refused_is_noop is false on the current tree (open finding) and unproved for the editors.
-NOT_PROVED = ["build_view", "refused_is_noop"]
+# NOT PROVED because FALSE on the current tree (open finding hop-limit-left-by-refused-proxy, see Props/C01.lean, design/C01.md):
+# refused_is_noop at full strength.  Proved instead: refused_is_noop_partial (every call kind, outside the D13 domain) and
+# refused_changes_only_hop_limit (inside it).
+NOT_PROVED = ["refused_is_noop"]
 RULE = ("API call scripts (coap_pdu_init; add_token / add_option / insert_option / update_option / remove_option / "
         "update_token / add_data in any order) for udp/tcp/ws: token length classes 0, 1-8, 9-12, 13, 14-268, 269, "
         "270-65804, 65805; option multisets over 0..65535 with deltas and value lengths on both sides of 12/13, "
